@@ -36,7 +36,16 @@ use std::time::Duration;
 #[derive(Default)]
 struct Namer {
     ids: HashMap<usize, usize>,
+    /// constructs outside the fragment `GluonModel.Compile` models (the program is then not sent
+    /// to the `compile` correspondence, and counted)
+    outside: Vec<&'static str>,
 }
+
+const PRIM_INSTRS: &[&str] = &[
+    "#Int+", "#Int-", "#Int*", "#Int/", "#Int<", "#Int==", "#Char<", "#Char==", "#Byte+", "#Byte-",
+    "#Byte*", "#Byte/", "#Byte<", "#Byte==", "#Float+", "#Float-", "#Float*", "#Float/", "#Float<",
+    "#Float==",
+];
 
 impl Namer {
     fn sym(&mut self, s: &Symbol) -> String {
@@ -47,7 +56,10 @@ impl Namer {
         let p = s.as_str().as_ptr() as usize;
         let n = self.ids.len() + 1;
         let k = *self.ids.entry(p).or_insert(n);
-        quote(&format!("{}~{}", s.as_str(), k))
+        // core/mod.rs:268 names binder variables after an address: keep the output deterministic
+        let name = s.as_str();
+        let name = if name.starts_with("bind_arg0x") { "bind_arg" } else { name };
+        quote(&format!("{}~{}", name, k))
     }
 }
 
@@ -172,6 +184,14 @@ fn expr_sexp(n: &mut Namer, e: &Expr, out: &mut String) {
             let _ = write!(out, "(id {})", n.sym(&id.name));
         }
         Expr::Call(f, args) => {
+            if let Expr::Ident(id, _) = f {
+                let nm = id.name.as_str();
+                if (nm == "&&" || nm == "||" || nm.starts_with('#'))
+                    && !((nm == "&&" || nm == "||" || PRIM_INSTRS.contains(&nm)) && args.len() == 2)
+                {
+                    n.outside.push("primitive-call");
+                }
+            }
             out.push_str("(call ");
             expr_sexp(n, f, out);
             for a in args.iter() {
@@ -227,6 +247,9 @@ fn expr_sexp(n: &mut Namer, e: &Expr, out: &mut String) {
 }
 
 fn closure_sexp(n: &mut Namer, c: &Closure, out: &mut String) {
+    if c.args.is_empty() {
+        n.outside.push("rec-value");
+    }
     let _ = write!(out, "({} (", n.sym(&c.name.name));
     for (i, a) in c.args.iter().enumerate() {
         if i > 0 {
@@ -467,6 +490,31 @@ fn process(vm: &Thread, name: &str, src: &str) -> String {
     let mut n = Namer::default();
     let mut core = String::new();
     expr_sexp(&mut n, cv.core_expr.value.expr(), &mut core);
+    for (marker, why) in [
+        ("(var none)", "poly-variant"),
+        ("(var (poly", "poly-variant"),
+        ("(pc none", "poly-variant"),
+        ("(pc (poly", "poly-variant"),
+        ("(pr-bad)", "untyped-record-pattern"),
+        ("(data bad", "untyped-data"),
+    ] {
+        if core.contains(marker) {
+            n.outside.push(why);
+        }
+    }
+    let outside = n.outside.first().map(|s| s.to_string());
+    // compiler.rs:866-868: the index of `string_eq` in the type of `std.prim`
+    let se_idx = vm
+        .get_env()
+        .get_binding("std.prim")
+        .ok()
+        .and_then(|(_, typ)| {
+            let e = empty_env();
+            let typ = resolve::remove_aliases_cow(&e, &mut NullInterner, typ.remove_forall()).into_owned();
+            let i = typ.remove_forall().row_iter().position(|f| f.name.declared_name() == "string_eq");
+            i
+        })
+        .unwrap_or(0);
     let bc = module_sexp(&mut n, &cv.module);
     let mut globals = String::from("(");
     for g in &cv.module.module_globals {
@@ -493,7 +541,7 @@ fn process(vm: &Thread, name: &str, src: &str) -> String {
         Ok(Ok(v)) => format!("(ok {})", surf::canon_value(v.value.get_variant())),
         Ok(Err(e)) => surf::classify_error(&format!("{}", e)),
     };
-    serde_json::json!({"core": core, "bc": bc, "globals": globals, "result": result, "nfun": nfun}).to_string()
+    serde_json::json!({"core": core, "bc": bc, "globals": globals, "result": result, "nfun": nfun, "outside": outside, "se_idx": se_idx}).to_string()
 }
 
 fn child(optimize: bool) {
@@ -504,6 +552,26 @@ fn child(optimize: bool) {
         i += 1;
         process(&vm, &format!("p{}", i), src)
     });
+}
+
+/// `gv::child::run` writes the whole input before it starts reading the child's output, and the
+/// dumps coming back are large: keep each batch's input below the pipe buffer size so that the
+/// write never waits for a child that is itself waiting for its output to be read.
+fn batch_small(mode: &str, inputs: &[String]) -> Vec<Result<String, String>> {
+    let mut out = Vec::with_capacity(inputs.len());
+    let mut start = 0;
+    while start < inputs.len() {
+        let mut end = start;
+        let mut bytes = 0;
+        while end < inputs.len() && (end == start || bytes + inputs[end].len() * 2 + 16 < 40_000) {
+            bytes += inputs[end].len() * 2 + 16;
+            end += 1;
+        }
+        let n = end - start;
+        out.extend(gv::child::batch(&["--child", mode], &inputs[start..end], n, Duration::from_secs(300)));
+        start = end;
+    }
+    out
 }
 
 fn main() {
@@ -551,7 +619,7 @@ fn main() {
     }
     let inputs: Vec<String> = progs.iter().map(|p| p.1.clone()).collect();
     for mode in ["noopt", "opt"] {
-        let results = gv::child::batch(&["--child", mode], &inputs, 100, Duration::from_secs(300));
+        let results = batch_small(mode, &inputs);
         for (i, ((e, src), res)) in progs.iter().zip(results.iter()).enumerate() {
             let v: serde_json::Value = match res {
                 Ok(r) => serde_json::from_str(r).unwrap_or(serde_json::json!({"result": "abort bad-json"})),
@@ -590,7 +658,14 @@ fn main() {
                 out.sample(serde_json::json!({"source": src, "impl": result, "core": core}));
             }
             out.case(&format!("evalcore {} {}", globals, core), &result);
-            out.case(&format!("compile {}", core), bc);
+            match v["outside"].as_str() {
+                Some(why) => out.count(&format!("skipped:compile:{}", why)),
+                None => {
+                    out.add("functions-compiled-exactly", v["nfun"].as_u64().unwrap_or(0));
+                    out.count("programs-compiled-exactly");
+                    out.case(&format!("compile {} {}", v["se_idx"].as_u64().unwrap_or(0), core), bc);
+                }
+            }
             out.case(&format!("runbc {} {}", globals, bc), &result);
         }
     }
